@@ -126,7 +126,15 @@ struct Pool {
    std::vector<T*> v;
    bool empty() const { return v.empty(); }
    size_t size() const { return v.size(); }
-   T* pick(int64_t sel) const { return v.empty() ? nullptr : v[size_t(uint64_t(sel) % v.size())]; }
+   // Selectors are interpreted modulo the number of live objects; odd selectors prefer the most recently created
+   // ones, so that chains (a fresh type -> a declaration of that type -> a use of that declaration) are common.
+   T* pick(int64_t sel) const
+   {
+      if (v.empty()) return nullptr;
+      const uint64_t u = uint64_t(sel);
+      if (u % 2 == 1) { const size_t w = v.size() < 6 ? v.size() : 6; return v[v.size() - 1 - size_t((u / 2) % w)]; }
+      return v[size_t((u / 2) % v.size())];
+   }
    void add(T* p) { if (p) v.push_back(p); }
    void add_unique(T* p) { if (p == nullptr) return; for (auto q : v) if (q == p) return; v.push_back(p); }
 };
@@ -319,6 +327,7 @@ struct World {
    std::vector<uint64_t> op_counts;                      // per opcode: times applied
    std::vector<int> step_codes;                          // opcode applied at each step (index = step), for leak attribution
    Builtins builtins;
+   std::set<Ref> builtin_leaf;                                      // built-in types and constants: leaves of every graph
    std::vector<impl::Warehouse<ipr::Type>*> dead_warehouses;   // (none kept: warehouses die right after the call)
    uint64_t creation_checks = 0, unify_hits = 0, unify_fresh = 0;
 
@@ -353,6 +362,12 @@ struct World {
    Verdict check_value_equalities();
    // address-independent digest of the whole observable graph (C17 / C20)
    uint64_t graph_digest();
+   // An upper estimate of how many nodes printing `r` visits when the graph is unfolded as a tree (shared operands
+   // count once per use), from the expected readings alone; saturates at 1e12.  Used by the printing scenarios to
+   // leave out prints whose size is exponential in the number of operations (x*x built over itself fifty times).
+   double print_weight(Ref r);
+   std::unordered_map<Ref, double> weight_memo;
+   std::unordered_map<Ref, size_t> word_size;                      // Identifier -> length of its spelling (print-size estimates)
 
    // --- helpers used by the op implementations ----------------------------------------------
    const ipr::Type& T(int64_t sel);
@@ -376,7 +391,7 @@ struct World {
       auto b = recs.find(than);
       if (b == recs.end()) return false;
       auto a = recs.find(x);
-      if (a == recs.end()) return true;          // unmodelled: a built-in constant or an internal node, cannot point back
+      if (a == recs.end()) return builtin_leaf.count(x) != 0;     // unmodelled: only a built-in constant is known not to point back
       return a->second.seq < b->second.seq;
    }
    // an expression older than `than` (falls back to the constant `true`)
@@ -384,6 +399,18 @@ struct World {
    {
       for (int k = 0; k < 6; ++k) { const ipr::Expr& e = E(sel + k); if (older(nref(e), than)) return e; }
       return lex->true_value();
+   }
+   // a name older than `than` (falls back to an identifier, which refers to nothing but its spelling)
+   const ipr::Name& No(int64_t sel, Ref than)
+   {
+      for (int k = 0; k < 6; ++k) { const ipr::Name& n = N(sel + k); if (older(nref(n), than)) return n; }
+      return Id(sel);
+   }
+   // a type older than `than` (falls back to `int`)
+   const ipr::Type& To(int64_t sel, Ref than)
+   {
+      for (int k = 0; k < 6; ++k) { const ipr::Type& t = T(sel + k); if (older(nref(t), than)) return t; }
+      return lex->int_type();
    }
    const ipr::Stmt* So(int64_t sel, Ref than)
    {
@@ -411,10 +438,12 @@ struct World {
    std::vector<const ipr::Decl*> decl_set_of(const ipr::Decl& d);                            // declarations sharing d's scope, name and type
    void for_each_in_set(const ipr::Decl& d, const std::function<void(Rec&)>& f);
    void add_type(const ipr::Type& t) { types.add_unique(&t); }
+   void reg_product(const ipr::Product&, const std::vector<const ipr::Type*>& elements);   // a product requested directly by a macro operation
    void add_expr(const ipr::Expr& e) { exprs.add_unique(&e); }
 
    // op groups (defined in world_a/b/c.cxx)
    Ref nested(const Op&);            // an operation issued on behalf of another one (prerequisite built on demand)
+   void trace_op(const char* what, const Op& op, Ref r);
    Ref dispatch(const Op&);
    Ref apply_names_types(const Op&);
    Ref apply_exprs(const Op&);
